@@ -33,8 +33,8 @@ ASSUMPTIONS = [
     "the mixed system is [[W M_f, -div^T, 0], [div, 0, -c^T], [0, c, 0]] with diagonal flux block (class docstrings)",
 ]
 FLOORS = {
-    "quick": {"rhs_object_reused": 300, "second_grid_same_shape": 300, "tiny_weight_scale_systems": 250, "solves_same_system": 900, "satisfies_full_system": 900, "formulation_usable": 300, "end_to_end_same_distance": 100, "default_tolerance_relative_residual": 800},
-    "thorough": {"rhs_object_reused": 1000, "second_grid_same_shape": 1000, "tiny_weight_scale_systems": 700, "solves_same_system": 3000, "satisfies_full_system": 3000, "formulation_usable": 1000, "end_to_end_same_distance": 400, "default_tolerance_relative_residual": 2500},
+    "quick": {"transposed_grid_solved_before": 30, "rhs_object_reused": 300, "second_grid_same_shape": 300, "tiny_weight_scale_systems": 250, "solves_same_system": 900, "satisfies_full_system": 900, "formulation_usable": 300, "end_to_end_same_distance": 100, "default_tolerance_relative_residual": 800},
+    "thorough": {"transposed_grid_solved_before": 100, "rhs_object_reused": 1000, "second_grid_same_shape": 1000, "tiny_weight_scale_systems": 700, "solves_same_system": 3000, "satisfies_full_system": 3000, "formulation_usable": 1000, "end_to_end_same_distance": 400, "default_tolerance_relative_residual": 2500},
 }
 COMBOS = [("full", "direct"), ("flux_reduced", "direct"), ("pressure", "direct"), ("flux_reduced", "amg"), ("pressure", "amg"),
           ("flux_reduced", "cg"), ("pressure", "cg")]
@@ -89,6 +89,20 @@ def run_shard(spec, R):
         shared_defaults = {"maxiter": 5000}
         if not R.want([list(shape)]):  # a case is a shape with all its combinations (they share options and grids)
             continue
+        # history in the process: solver objects for the transposed grid (same number of cells and faces per axis set,
+        # another layout) have been set up and used before the judged objects of this shape are built
+        if shape != shape[::-1]:
+            pgrid = darsia.Grid(shape[::-1], list(h[::-1]))
+            pa, pb = wass.mass_pair(rng, shape[::-1], "dense")
+            pm1, pm2 = wass.images(darsia, pa, pb, h[::-1])
+            for pform, pback in COMBOS:
+                if pback != "direct":
+                    continue
+                try:
+                    darsia.WassersteinDistanceNewton(pgrid, None, wass.make_options(darsia, "newton", "RAVIART_THOMAS", "CELL_BASED", pform, pback, 0, 2))(pm1, pm2)
+                except Exception:
+                    pass  # the predecessor only provides history; its own results are judged when its shape is the case
+            R.count("transposed_grid_solved_before")
         for ci, (formulation, backend) in enumerate(COMBOS):
             rng = rng_for(spec["seed"], "C08", 1000 + spec["shard"], 100 * spec["shapes"].index(list(shape)) + ci)
             case = {"shape": list(shape), "voxel_size": h, "formulation": formulation, "backend": backend}
